@@ -71,7 +71,7 @@ CASES = [
     ("lockexpr", "pub struct G { pub st: Mutex<S> }\nimpl G { fn get(&self) -> MutexGuard<'_, S> { self.st.lock().expect(\"l\") }\n fn f(&self) -> u64 { let s = self.get(); s.a + self.st.lock().unwrap().a } }",
      ("expect", ["let s := (G.get self)", "Rs.uadd Rs.U64_MAX s.a self.st.a"]), ("G", "f")),
     ("extfield", "pub struct C<L> { pub local: L, pub n: u64 }\nimpl<L> C<L> { fn f(&self, k: &str) -> Result<u64, Error> { let v = self.local.get_version(k)?; Ok(v.unwrap_or(0) + self.n) } }",
-     ("expect", ["(ext_local_get_version : L → String → Rs.M (Option Nat))", "let v ← ext_local_get_version self.«local» k"]), ("C", "f"),
+     ("expect", ["(ext_local_get_version : L → String → (Rs.M (Option Nat)))", "let v ← ext_local_get_version self.«local» k"]), ("C", "f"),
      {"local.get_version": {"params": ["&str"], "ret": "Result<Option<u64>, Error>"}}),
     ("litfold", "fn f(x: u64) -> u64 { x << 8 * 7 }", ("expect", ["Rs.ushl 64 x 56"])),
     ("entry2", "pub struct H { pub p: K2, pub v: u64 }\nfn f(hs: &[H]) -> BTreeMap<K2, u64> { let mut m = BTreeMap::new(); for h in hs { m.entry(h.p).and_modify(|e| *e += h.v).or_insert(h.v); } m }",
@@ -82,6 +82,10 @@ CASES = [
      ("expect", ["m.filter (fun (k, _) => (Rs.omapGet b k).isSome)"])),
     ("lockcallee", "pub struct G { pub st: Mutex<S> }\nimpl G { fn bump(&self, x: u64) -> Result<(), ()> { let mut s = self.st.lock().unwrap(); if x == 0 { return Err(()); } s.a = x; Ok(()) }\n fn all(&self, xs: Vec<u64>) -> Result<(), ()> { for x in xs.into_iter() { self.bump(x)?; } Ok(()) } }",
      ("expect", ["List.foldlM (fun self x => do", "let self ← G.bump self x"]), ("G", "all")),
+    ("lock2", "pub struct G { pub log: Mutex<Option<Vec<u32>>> }\nimpl G { fn f(&self, x: u32) { let mut o = self.log.lock().unwrap(); let l = o.as_mut().expect(\"tx\"); l.push(x); }\n fn g(&self) { let mut o = self.log.lock().unwrap(); o.take(); } }",
+     ("expect", ["def G.f (self : G) (x : Nat) : Rs.M G", "{ self with log := (some (x_", "pure self"]), ("G", "f")),
+    ("lock3", "pub struct G { pub log: Mutex<Option<Vec<u32>>> }\nimpl G { fn g(&self) -> Option<Vec<u32>> { let mut o = self.log.lock().unwrap(); o.take() } }",
+     ("expect", ["G × (Option (List Nat))", "{ self with log := none }"]), ("G", "g")),
     ("vecunder", "fn f(v: &[u32]) -> usize { let w: Vec<_> = v.iter().map(|x| *x).collect(); w.len() }", ("expect", ["w.length"])),
     # ---- refused (fail closed)
     ("r-entryloop-partial", "fn f(a: BTreeMap<K2, u64>, b: BTreeMap<K2, u64>) -> BTreeMap<K2, u64> { let mut m = a; for (k, v) in b { m.entry(k).and_modify(|e| *e += v).or_insert(v); } m }",
